@@ -932,7 +932,12 @@ impl<'p, W, R, T> CompilationScope<'p, W, R, T> {
                     }
                     for (param, arg) in spec.param_types.iter().zip(args) {
                         let arg_type = self.type_of(arg)?;
-                        if param.bind_in_assignment(&arg_type).is_none() {
+                        // the generic parameters a callable type mentions are those of the enclosing function: they are
+                        // opaque here, so an argument may not bind them to anything
+                        if !param
+                            .bind_in_assignment(&arg_type)
+                            .map_or(false, |bind| bind.is_empty())
+                        {
                             return Err(CompilationError::InvalidArgumentType {
                                 expected: param.clone(),
                                 got: arg_type,
